@@ -136,6 +136,24 @@ def prop_modules(pid):
     return out
 
 
+def import_closure(mods):
+    """the TypVerif modules reachable from `mods` through `import` lines (this package only)"""
+    seen, todo = [], list(mods)
+    while todo:
+        m = todo.pop()
+        if m in seen:
+            continue
+        path = os.path.join(LEAN, *m.split(".")) + ".lean"
+        if not os.path.exists(path):
+            continue
+        seen.append(m)
+        for line in open(path):
+            mm = re.match(r"\s*import\s+(TypVerif\.\S+)", line)
+            if mm:
+                todo.append(mm.group(1))
+    return sorted(seen)
+
+
 def theorem_names(pid):
     """Names of the property theorems in Props/<pid>*.lean (namespace-qualified)."""
     names = []
